@@ -76,6 +76,10 @@ fp = dict(json.load(open(V + '/records/round2_first_pass.json'))['breaking_first
 r3rec = json.load(open(V + '/records/round3_first_pass.json'))
 for k3, v3 in r3rec['first_pass'].items():
     fp[k3] = v3
+for k3, v3 in r3rec.get('late_sample', {}).items():
+    fp[k3] = v3
+for k4, v4 in json.load(open(V + '/records/round4_breaking_first_pass.json'))['first_pass'].items():
+    fp[k4] = v4
 mrows = ['| change | what it does | first pass | reported by (after tuning) |', '|--------|--------------|------------|---------------------------|']
 own = other = missed = 0
 for e in sorted(exps, key=keyf):
@@ -96,8 +100,8 @@ for e in sorted(exps, key=keyf):
     if id in fp:
         f1 = fp[id]
         first = ' '.join(f1['reported_by']) if f1['reported_by'] else ('undecided' if f1['undecided'] else '**missed**')
-        if 'wrong reason' in f1.get('note', ''):
-            first = '(' + first + ': wrong reason, counts as missed)'
+        if 'wrong reason' in f1.get('note', '') or 'reported_for_an_unrelated_reason' in f1:
+            first = '(' + first + ': unrelated reason, counts as missed)'
         rel = f1.get('relation_to_earlier_samples', '')
         if rel and rel != 'novel':
             what = what[:110] + ' [' + rel.split(' (')[0] + ']'
